@@ -221,6 +221,7 @@ PROPS = {
              "params": {"quick": {"workers": 4, "bounds": "6 piece kinds x all 128 subsets of 7 destination squares (a1 d1 h1 b4 e5 c8 h8), every prefix of the iteration"},
                         "thorough": {"workers": 4, "bounds": "6 piece kinds x all 128 subsets of 7 destination squares (a1 d1 h1 b4 e5 c8 h8), every prefix of the iteration"}}},
             value_job("pm", "pm", ["C17"], {"cases": 1500, "boards": 60}, {"cases": 400000, "boards": 20000}, sample_kinds=["pm"]),
+            value_job("pm-overflow-checks", "pm", ["C17"], {"cases": 600, "boards": 20}, {"cases": 40000, "boards": 2000}, variant="dev", seed_offset=37, sample_kinds=["pm"]),
         ],
     },
     "C18": {
@@ -230,6 +231,7 @@ PROPS = {
             {"type": "model", "name": "carry-rippler-machine", "spec": "MC_Rippler", "exhaustive": True,
              "params": {"quick": {"workers": 4, "bounds": "all 256 masks of an 8-bit universe, every step"}, "thorough": {"workers": 4, "bounds": "all 256 masks of an 8-bit universe, every step"}}},
             value_job("bb", "bb", ["C18"], {"cases": 4000, "subset-bits": 8}, {"cases": 600000, "subset-bits": 12}, sample_kinds=["bb_op", "bb_iter", "bb_subsets"]),
+            value_job("bb-overflow-checks", "bb", ["C18"], {"cases": 1200, "subset-bits": 6}, {"cases": 60000, "subset-bits": 10}, variant="dev", seed_offset=29, sample_kinds=["bb_iter"]),
         ],
     },
     "C19": {
